@@ -41,9 +41,14 @@ CORE = [
  "x = (y := 1)\n", "x = (yield a)\n", "def g():\n    x = yield from a\n", "global a, b\n", "nonlocal a\n", "assert a, b\n", "raise A from b\n", "return\n", "return *a, b\n",
  "x = 'a' 'b' f'{c!r:>{d}}'\n", "x = f'{a}{b=}'\n", "x = b'a' b'b'\n", "x = 1j + 0x1f + 1_0.5e3\n", "x = (1,)\n", "x = ()\n", "x = []\n", "x = {}\n",
  "print(*a, sep='')\n", "a = yield\n", "for a in b, c:\n    pass\n", "async with a as b:\n    pass\n", "async for a in b:\n    pass\n", "x = [*a, *b]\n",
+ "f(**a, **b)\n", "f(k=1, **o)\n", "f(*a, k=1)\n", "f(a, b for b in c)\n".replace("a, b for b in c", "(b for b in c), a"),
+ "match x:\n    case 1 + 2j:\n        pass\n    case -3 - 1j | 'a' | None:\n        pass\n    case {0 + 1j: y, 'k': [1, *_]}:\n        pass\n",
+ "match x, y:\n    case (a, b) as c if c:\n        pass\n    case a.b | str(z):\n        pass\n",
  "x = a @ b\n", "pass; pass\n", "x: list[int] = []\n", "type X = int\n", "def f[T](a: T) -> T:\n    return a\n", "class A[T]:\n    pass\n",
 ]
-REPL = ["=", ")", "(", "1", "x", "else", "**", "*", ",", ":", "in", "as", "."]
+REPL = ["=", ")", "(", "1", "x", "else", "**", "*", ",", ":", "in", "as", ".", "2.5", "'s'", "None", "not"]
+# multi-token phrases inserted after every token (the comprehension tail, a conditional tail, an annotation, ...)
+PHRASES = ["for q in r", "if q else r", ": int", "= 1", "as q", "not in q", "lambda: 0", "*a, **k", "for q in r if q", ":= 1"]
 def sweep(src):
     """EVERY single-token deletion / duplication / replacement / insertion of a valid one-construct program"""
     toks = list(tokenize.generate_tokens(io.StringIO(src).readline))
@@ -60,6 +65,8 @@ def sweep(src):
             if rp != t.string:
                 yield sp(rp), "replace"
                 yield sp(t.string + " " + rp), "insert"
+        for ph in PHRASES:
+            yield sp(t.string + " " + ph), "phrase"
 
 def host_rejected_corpus() -> list[str]:
     """the doctest examples of the host interpreter's own test_syntax.py (invalid programs with the expected error);
@@ -176,8 +183,8 @@ def edits(r, src: str, n: int):
 def run(chk: common.Check, tier: str):
     chk.rule = ("invalid programs obtained from the test-suite sources by token-level deletion / insertion / replacement / "
                 "duplication, incl. edits that leave blank lines or multi-line tokens inside the reported range, plus "
-                "hand-written snippets, plus EVERY single-token deletion / duplication / replacement / insertion (13 replacement "
-                "tokens) of one valid program per grammar construct, each through parse_string and parse_file; non-trivial = the edit makes the program "
+                "hand-written snippets, plus EVERY single-token deletion / duplication / replacement / insertion (17 replacement "
+                "tokens, 10 inserted phrases) of one valid program per grammar construct, each through parse_string and parse_file; non-trivial = the edit makes the program "
                 "unparsable; distinct by source text")
     r = common.rng("c07")
     P = build_parser()
